@@ -15,6 +15,7 @@ import NiftyVerif.Lemmas.CgClassicExample
 import NiftyVerif.Lemmas.ControllersSqrt
 import NiftyVerif.Lemmas.CgClassicHist
 import NiftyVerif.Lemmas.CgClassicExact
+import NiftyVerif.Lemmas.CgClassicInstances
 import Mathlib.LinearAlgebra.Dimension.Constructions
 
 set_option linter.unusedSectionVars false
@@ -787,5 +788,49 @@ example : (match inversionEnabler exOp none (absDeltaE (1 / 4 : ℚ) 1 (some 10)
     | .solved _ run => decide (run.status = .converged)
     | _ => false) = true := by
   decide +kernel
+
+/-! ## the instances the theorems are meant for -/
+
+/-- **Complex Hermitian positive definite systems are covered.**  `V = n → ℂ` as a real vector space with
+    `ip u v = Re (uᴴ v)` (the code's `u.s_vdot(v).real`; all scalars CG multiplies with are real), `A = M ·` with `M`
+    Hermitian and `Re (xᴴ M x) > 0`, preconditioner none or `N ·` with `N` of the same kind: all hypotheses used by the
+    theorems above (`Sys.Linear`, `Sys.Bilinear`, `Sys.SPD`, `Sys.SPDP`, definiteness of the preconditioner) hold. -/
+theorem complex_hermitian_covered {n : Type} [Fintype n] (M : Matrix n n ℂ) (b : Option (n → ℂ))
+    (N : Option (Matrix n n ℂ)) (ninfsq : (n → ℂ) → ℝ) (hM : M.conjTranspose = M)
+    (hMpos : ∀ x : n → ℂ, x ≠ 0 → 0 < (star x ⬝ᵥ M.mulVec x).re)
+    (hN : ∀ N', N = some N' → N'.conjTranspose = N' ∧ ∀ x : n → ℂ, x ≠ 0 → 0 < (star x ⬝ᵥ N'.mulVec x).re) :
+    (complexSys M b N ninfsq).SPDP ∧ (complexSys M b N ninfsq).SPD ∧ (complexSys M b N ninfsq).Linear ∧
+    (complexSys M b N ninfsq).Bilinear ∧
+    (∀ v, (complexSys M b N ninfsq).ip v (precond (complexSys M b N ninfsq) v) = 0 → v = 0) := by
+  have h := complexSys_spdp M b N ninfsq hM hMpos hN
+  refine ⟨h, h.toSPD, h.lin, h.bil, ?_⟩
+  intro v hv
+  by_contra h0
+  exact absurd hv (ne_of_gt (h.P_pos v h0))
+
+/-- non-vacuity: `M = 2·1` on `ℂ²`, no preconditioner -/
+example : (complexSys ((2 : ℂ) • (1 : Matrix (Fin 2) (Fin 2) ℂ)) none none (fun _ => 0)).SPDP := by
+  refine (complex_hermitian_covered _ none none _ ?_ ?_ ?_).1
+  · rw [Matrix.conjTranspose_smul, Matrix.conjTranspose_one]; simp
+  · intro x hx
+    rw [Matrix.smul_mulVec, Matrix.one_mulVec, dotProduct_smul, smul_eq_mul, Complex.mul_re]
+    have := reDot_self_pos hx
+    unfold reDot at this
+    have h2re : (2 : ℂ).re = 2 := by simp
+    have h2im : (2 : ℂ).im = 0 := by simp
+    rw [h2re, h2im]
+    linarith
+  · intro N' h; cases h
+
+/-- **The driver instance is lawful**: the system `Driver/C14.lean` builds from a request (`C14Driver.sysOf`: exact
+    rational vectors `RVec N`, `RVec.matVec`, `RVec.dot`) has a linear operator and a symmetric bilinear `ip`, and the
+    module structure on `RVec N` consists of the model's own point-wise operations — so e.g. every energy object of every
+    driver run is consistent (instance of `cg_grad_invariant`/`cg_value_correct`). -/
+theorem driver_instance_lawful {N : Nat} {τ : Type} (cplx : Bool) (A : RVec.Mat N N) (b : Option (RVec N))
+    (P : Option (RVec.Mat N N)) (c : Ctrl ℚ τ) (nreset : Int) (fuel : Nat) (x : RVec N) :
+    (C14Driver.sysOf cplx A b P).Linear ∧ (C14Driver.sysOf cplx A b P).Bilinear ∧
+    (cg (C14Driver.sysOf cplx A b P) c nreset fuel (QE.make (C14Driver.sysOf cplx A b P) x none)).energy.Consistent
+      (C14Driver.sysOf cplx A b P) :=
+  ⟨sysOf_linear cplx A b P, sysOf_bilinear cplx A b P, driver_cg_consistent cplx A b P c nreset fuel x⟩
 
 end NiftyVerif.C14
